@@ -50,8 +50,7 @@ const (
 
 // assertedProbeClasses lists the known-divergence classes (ReportOnly.Class) whose defect has been
 // fixed in /repo: their probe cases are then generated as ordinary asserted cases.  Empty on the
-// pinned tree; add e.g. "never-specificity" once the corresponding fix of
-// findings/C05/proposed-fixes.diff is committed.
+// current tree ("attr-blank-value" and "has-relative" are the two open classes).
 var assertedProbeClasses = map[string]bool{}
 
 func nExh(tier string) int { return 2 * len(exhTreeList(tier)) }
@@ -107,7 +106,7 @@ func genCase(r *rand.Rand, i int, tier string) any {
 		c := Case{Mode: "exh", Set: setName(tier)}
 		for _, n := range forest {
 			if i%2 == 1 {
-				interleave(r, n, false)
+				interleave(r, n)
 			}
 			c.Elems += n.countElems()
 		}
@@ -121,87 +120,43 @@ func genCase(r *rand.Rand, i int, tier string) any {
 	}
 	g := &sgen{r: r}
 	c := Case{Mode: "rand"}
-	oddWS := false
 	switch j % 100 {
 	case 0:
-		g.kdAttrEmpty = true
-		c.RO = &ReportOnly{Class: "attr-empty-operand", Sigs: []string{"match"}}
-	case 1:
-		g.kdNever = true
-		c.RO = &ReportOnly{Class: "never-specificity", Sigs: []string{"specificity"}}
+		g.kdAttrBlank = true
+		c.RO = &ReportOnly{Class: "attr-blank-value", Sigs: []string{"match"}}
 	case 2:
 		g.kdHasComplex = true
 		c.RO = &ReportOnly{Class: "has-relative", Sigs: []string{"match"}}
-	case 3:
-		g.kdEscape = true
-		c.RO = &ReportOnly{Class: "roundtrip-escape", Sigs: []string{"roundtrip-parse", "roundtrip-string", "roundtrip-match", "roundtrip-len", "roundtrip-specificity", "roundtrip-pseudo-element"}}
-	case 4:
-		g.kdIFlag = true
-		c.RO = &ReportOnly{Class: "iflag-nonascii", Sigs: []string{"match"}}
-	case 6:
-		g.kdComment = true
-		c.RO = &ReportOnly{Class: "comment-in-compound", Sigs: []string{"match", "specificity", "pseudo-element", "parse-error"}}
-	case 5:
-		oddWS = true
-		c.RO = &ReportOnly{Class: "empty-nonascii-space", Sigs: []string{"match"}}
 	}
 	if c.RO != nil && assertedProbeClasses[c.RO.Class] {
 		c.RO = nil
 	}
 	forest := randForest(r, 1+r.Intn(25), 0)
 	for _, n := range forest {
-		interleave(r, n, oddWS)
+		interleave(r, n)
 		c.Elems += n.countElems()
 	}
 	c.Elems += 3
-	if g.kdIFlag {
-		// give the i flag something to fold wrongly
-		for _, n := range forest {
-			n.attrs = append(n.attrs, rattr{"k", pick(r, []string{"é", "k", "s", "cé"})})
-			n.attrs = dedupAttrs(n.attrs)
-		}
-	}
-	if g.kdEscape {
-		for _, n := range forest {
-			n.attrs = append(n.attrs, rattr{"a.b", pick(r, valuePool)})
-		}
-	}
 	c.HTML = document(r, forest, false)
-	if strings.Contains(c.HTML, "<title>") || strings.Contains(c.HTML, "<meta") {
+	if strings.Contains(c.HTML, "<title>") {
 		c.Elems++
-		if strings.Contains(c.HTML, "<title>") && strings.Contains(c.HTML, "<meta") {
-			c.Elems++
-		}
+	}
+	if strings.Contains(c.HTML, "<meta") {
+		c.Elems++
 	}
 	for k := 0; k < selsPerCase; k++ {
 		l := g.list()
-		if oddWS && k%2 == 0 {
-			l = []Complex{cx1(pc("empty"))}
-			if k%4 == 0 {
-				l = []Complex{cx1(lg("not", cx1(pc("empty"))))}
-			}
-		}
 		if g.kdHasComplex && k%2 == 0 {
 			// X:has(Y Z) / X:has(Y > Z) with X = Y: the shape on which the scope boundary decides
 			x := ty(pick(r, []string{"div", "x-a", "span"}))
 			z := g.compound(1)
 			l = []Complex{cx1(x, lg("has", Complex{C: []Compound{{S: []Simple{x}}, z}, Comb: []string{pick(r, []string{" ", ">"})}}))}
 		}
-		c.Sels = append(c.Sels, SelCase{Text: printListOpt(r, l, g.kdComment), List: l})
+		// one selector in seven is printed with comments between the simple selectors of its compounds
+		text, cic := printListOpt(r, l, r.Intn(7) == 0)
+		c.Sels = append(c.Sels, SelCase{Text: text, List: l, CIC: cic})
 	}
 	return c
-}
-
-func dedupAttrs(a []rattr) []rattr {
-	seen := map[string]bool{}
-	var out []rattr
-	for i := len(a) - 1; i >= 0; i-- { // the last one wins
-		if !seen[a[i].k] {
-			seen[a[i].k] = true
-			out = append([]rattr{a[i]}, out...)
-		}
-	}
-	return out
 }
 
 // ---------------------------------------------------------------------------------------------
@@ -219,6 +174,19 @@ type parsedSel struct {
 	rtSig    string // round-trip failure (kept apart: g stays usable)
 	rtMsg    string
 	maxNeSum bool
+	cic      int  // comments inside compounds in the text
+	hardEsc  bool // a name / operand that needs an escape beyond punctuation when printed back
+	never    bool // contains a :hover-like pseudo-class
+}
+
+// needsHardEscape: leading digit (identifiers only) or a C0 control / DEL anywhere.
+func needsHardEscape(s string, ident bool) bool {
+	for i, r := range s {
+		if r < 0x20 || r == 0x7f || (ident && i == 0 && '0' <= r && r <= '9') {
+			return true
+		}
+	}
+	return false
 }
 
 func toSpec(s selector.Specificity) spec { return spec{s[0], s[1], s[2]} }
@@ -230,6 +198,22 @@ func analyse(text string, list []Complex) *parsedSel {
 		ps.feats = append(ps.feats, f)
 	}
 	sort.Strings(ps.feats)
+	for i := range list {
+		walkSimples(&list[i], func(s *Simple, _ int) {
+			switch s.K {
+			case "never":
+				ps.never = true
+			case "class", "id", "type":
+				if needsHardEscape(s.N, true) {
+					ps.hardEsc = true
+				}
+			case "attr":
+				if needsHardEscape(s.N, true) || strings.ContainsAny(s.N, ".:") || strings.ContainsAny(s.V, "\"\\\n\r\f") || needsHardEscape(s.V, false) {
+					ps.hardEsc = true
+				}
+			}
+		})
+	}
 	var g selector.SelectorGroup
 	var err error
 	if sig, msg, _ := fw.Protect(func() { g, err = selector.ParseGroup(text) }); sig != "" {
@@ -406,6 +390,15 @@ func (cr *caseRun) evalSel(ps *parsedSel) bool {
 		}
 	} else if ps.sig == "" {
 		cr.cnt["roundtrips_ok"]++
+		if ps.hardEsc {
+			cr.cnt["roundtrips_ok_hard_escapes"]++ // leading digit, control character, quote / backslash / newline in operand, '.' in attribute name
+		}
+		if ps.cic > 0 {
+			cr.cnt["selectors_ok_comment_inside_compound"]++
+		}
+		if ps.never {
+			cr.cnt["selectors_ok_with_never_pseudo_class"]++
+		}
 		if strings.Contains(ps.ser, "\\") {
 			cr.cnt["roundtrips_with_escapes"]++
 		}
@@ -480,6 +473,7 @@ func check(raw json.RawMessage) fw.Result {
 	case "rand":
 		for i := range in.Sels {
 			ps := analyse(in.Sels[i].Text, in.Sels[i].List)
+			ps.cic = in.Sels[i].CIC
 			if cr.evalSel(ps) {
 				stopped = true
 				break
@@ -511,6 +505,9 @@ func check(raw json.RawMessage) fw.Result {
 		"ref_root_true":                       st.rootTrue,
 		"ref_iflag_folded":                    st.iflagFolded,
 		"ref_not_list_args_disagree":          st.notListMixed,
+		"ref_empty_false_non_ascii_space":     st.emptyFalseOddSpace,
+		"ref_root_false_nested_html":          st.rootFalseNestedHTML,
+		"ref_iflag_unicode_fold_only":         st.iflagUnicodeOnly,
 		"ref_is_list_args_disagree":           st.isListMixed,
 	} {
 		if v != 0 {
@@ -539,109 +536,118 @@ func counterFloors(tier string) map[string]int64 {
 	// whose match set was neither empty nor everything; "rmixed:" the same for the random part;
 	// "ref_*" = situations the reference evaluator went through (see refStats).
 	q := map[string]int64{
-		"dom_comments":                        14000,
-		"dom_elements":                        48000,
-		"dom_text_other":                      7200,
-		"dom_text_ws_only":                    8700,
-		"elem_match_false":                    39000000,
-		"elem_match_true":                     6500000,
-		"mixed:attr_$=":                       79000,
-		"mixed:attr_*=":                       120000,
-		"mixed:attr_=":                        87000,
-		"mixed:attr_^=":                       110000,
-		"mixed:attr_exists":                   170000,
-		"mixed:attr_iflag":                    280000,
-		"mixed:attr_|=":                       97000,
-		"mixed:attr_~=":                       110000,
-		"mixed:class":                         860000,
-		"mixed:comb_adjacent":                 240000,
-		"mixed:comb_child":                    280000,
-		"mixed:comb_descendant":               290000,
-		"mixed:comb_sibling":                  160000,
-		"mixed:empty":                         230000,
-		"mixed:first-child":                   310000,
-		"mixed:first-of-type":                 88000,
-		"mixed:has":                           370000,
-		"mixed:id":                            180000,
-		"mixed:is":                            190000,
-		"mixed:is_list":                       170000,
-		"mixed:last-child":                    190000,
-		"mixed:last-of-type":                  92000,
-		"mixed:list":                          18000,
-		"mixed:nested_logical":                84000,
-		"mixed:not":                           570000,
-		"mixed:not_list":                      74000,
-		"mixed:nth-child":                     440000,
-		"mixed:nth-last-child":                140000,
-		"mixed:nth-last-of-type":              290000,
-		"mixed:nth-of-type":                   100000,
-		"mixed:nth_negative_a":                280000,
-		"mixed:only-child":                    70000,
-		"mixed:only-of-type":                  200000,
-		"mixed:pseudo_element":                17000,
-		"mixed:root":                          78000,
-		"mixed:type":                          990000,
-		"mixed:univ":                          270000,
-		"node_evals":                          70000000,
-		"ref_adjacent_across_text_or_comment": 23000,
-		"ref_empty_false_element":             1100000,
-		"ref_empty_false_text":                100000,
-		"ref_empty_true_comment_only":         63000,
-		"ref_empty_true_no_child":             930000,
-		"ref_empty_true_whitespace_text":      68000,
-		"ref_iflag_folded":                    480000,
-		"ref_is_list_args_disagree":           480000,
-		"ref_not_list_args_disagree":          210000,
-		"ref_nth_negative_a_true":             1600000,
-		"ref_nth_of_type_index_differs":       1600000,
-		"ref_nth_positive_a_true_n_ge_1":      1000000,
-		"ref_nth_true_with_non_element_sibs":  1900000,
-		"ref_root_true":                       270000,
-		"ref_sibling_across_text_or_comment":  19000,
-		"rmixed:attr_$=":                      540,
-		"rmixed:attr_*=":                      550,
-		"rmixed:attr_=":                       480,
-		"rmixed:attr_^=":                      530,
-		"rmixed:attr_exists":                  740,
-		"rmixed:attr_iflag":                   760,
-		"rmixed:attr_|=":                      500,
-		"rmixed:attr_~=":                      500,
-		"rmixed:class":                        2400,
-		"rmixed:comb_adjacent":                1000,
-		"rmixed:comb_child":                   1600,
-		"rmixed:comb_descendant":              1800,
-		"rmixed:comb_sibling":                 1000,
-		"rmixed:empty":                        1300,
-		"rmixed:first-child":                  450,
-		"rmixed:first-of-type":                420,
-		"rmixed:has":                          560,
-		"rmixed:has_list":                     290,
-		"rmixed:id":                           1200,
-		"rmixed:is":                           1000,
-		"rmixed:is_list":                      570,
-		"rmixed:last-child":                   470,
-		"rmixed:last-of-type":                 420,
-		"rmixed:list":                         2500,
-		"rmixed:nested_logical":               740,
-		"rmixed:not":                          1200,
-		"rmixed:not_list":                     640,
-		"rmixed:nth-child":                    610,
-		"rmixed:nth-last-child":               610,
-		"rmixed:nth-last-of-type":             550,
-		"rmixed:nth-of-type":                  550,
-		"rmixed:nth_negative_a":               920,
-		"rmixed:only-child":                   410,
-		"rmixed:only-of-type":                 440,
-		"rmixed:pseudo_element":               1000,
-		"rmixed:root":                         660,
-		"rmixed:type":                         4400,
-		"rmixed:univ":                         1800,
-		"roundtrips_ok":                       5800000,
-		"roundtrips_with_escapes":             4700,
-		"selectors":                           5800000,
-		"selectors_mixed":                     2700000,
-		"selectors_mixed_random":              6400,
-		"spec_max_differs_from_sum":           450000,
+		"dom_comments":                         15000,
+		"dom_elements":                         51000,
+		"dom_foreign_elements":                 3200,
+		"dom_text_other":                       7600,
+		"dom_text_ws_only":                     9200,
+		"elem_match_false":                     45000000,
+		"elem_match_true":                      6700000,
+		"mixed:attr_$=":                        86000,
+		"mixed:attr_*=":                        110000,
+		"mixed:attr_=":                         73000,
+		"mixed:attr_^=":                        100000,
+		"mixed:attr_exists":                    170000,
+		"mixed:attr_iflag":                     260000,
+		"mixed:attr_|=":                        83000,
+		"mixed:attr_~=":                        110000,
+		"mixed:class":                          860000,
+		"mixed:comb_adjacent":                  240000,
+		"mixed:comb_child":                     270000,
+		"mixed:comb_descendant":                280000,
+		"mixed:comb_sibling":                   160000,
+		"mixed:empty":                          230000,
+		"mixed:first-child":                    310000,
+		"mixed:first-of-type":                  90000,
+		"mixed:has":                            360000,
+		"mixed:id":                             180000,
+		"mixed:is":                             180000,
+		"mixed:is_list":                        160000,
+		"mixed:last-child":                     190000,
+		"mixed:last-of-type":                   93000,
+		"mixed:list":                           18000,
+		"mixed:nested_logical":                 85000,
+		"mixed:never":                          92000,
+		"mixed:not":                            660000,
+		"mixed:not_list":                       77000,
+		"mixed:nth-child":                      440000,
+		"mixed:nth-last-child":                 150000,
+		"mixed:nth-last-of-type":               290000,
+		"mixed:nth-of-type":                    110000,
+		"mixed:nth_negative_a":                 290000,
+		"mixed:only-child":                     72000,
+		"mixed:only-of-type":                   200000,
+		"mixed:pseudo_element":                 17000,
+		"mixed:root":                           80000,
+		"mixed:type":                           980000,
+		"mixed:univ":                           270000,
+		"node_evals":                           81000000,
+		"ref_adjacent_across_text_or_comment":  21000,
+		"ref_empty_false_element":              1100000,
+		"ref_empty_false_non_ascii_space":      31000,
+		"ref_empty_false_text":                 100000,
+		"ref_empty_true_comment_only":          69000,
+		"ref_empty_true_no_child":              1000000,
+		"ref_empty_true_whitespace_text":       74000,
+		"ref_iflag_folded":                     480000,
+		"ref_iflag_unicode_fold_only":          23000,
+		"ref_is_list_args_disagree":            480000,
+		"ref_not_list_args_disagree":           230000,
+		"ref_nth_negative_a_true":              1700000,
+		"ref_nth_of_type_index_differs":        1600000,
+		"ref_nth_positive_a_true_n_ge_1":       1000000,
+		"ref_nth_true_with_non_element_sibs":   2100000,
+		"ref_root_false_nested_html":           300,
+		"ref_root_true":                        280000,
+		"ref_sibling_across_text_or_comment":   18000,
+		"rmixed:attr_$=":                       440,
+		"rmixed:attr_*=":                       470,
+		"rmixed:attr_=":                        430,
+		"rmixed:attr_^=":                       450,
+		"rmixed:attr_exists":                   680,
+		"rmixed:attr_iflag":                    620,
+		"rmixed:attr_|=":                       400,
+		"rmixed:attr_~=":                       440,
+		"rmixed:class":                         2000,
+		"rmixed:comb_adjacent":                 960,
+		"rmixed:comb_child":                    1500,
+		"rmixed:comb_descendant":               1500,
+		"rmixed:comb_sibling":                  940,
+		"rmixed:empty":                         1200,
+		"rmixed:first-child":                   400,
+		"rmixed:first-of-type":                 420,
+		"rmixed:has":                           550,
+		"rmixed:has_list":                      290,
+		"rmixed:id":                            1000,
+		"rmixed:is":                            920,
+		"rmixed:is_list":                       490,
+		"rmixed:last-child":                    450,
+		"rmixed:last-of-type":                  400,
+		"rmixed:list":                          2300,
+		"rmixed:nested_logical":                680,
+		"rmixed:never":                         380,
+		"rmixed:not":                           1100,
+		"rmixed:not_list":                      600,
+		"rmixed:nth-child":                     550,
+		"rmixed:nth-last-child":                530,
+		"rmixed:nth-last-of-type":              500,
+		"rmixed:nth-of-type":                   470,
+		"rmixed:nth_negative_a":                810,
+		"rmixed:only-child":                    410,
+		"rmixed:only-of-type":                  380,
+		"rmixed:pseudo_element":                930,
+		"rmixed:root":                          610,
+		"rmixed:type":                          4000,
+		"rmixed:univ":                          1600,
+		"roundtrips_ok":                        6700000,
+		"roundtrips_ok_hard_escapes":           280000,
+		"roundtrips_with_escapes":              900000,
+		"selectors":                            6700000,
+		"selectors_mixed":                      2700000,
+		"selectors_mixed_random":               5800,
+		"selectors_ok_comment_inside_compound": 2100,
+		"selectors_ok_with_never_pseudo_class": 270000,
+		"spec_max_differs_from_sum":            480000,
 	}
 	out := map[string]int64{}
 	for k, v := range q {
@@ -655,8 +661,8 @@ func counterFloors(tier string) map[string]int64 {
 	if tier == "thorough" {
 		rnd = thoroughRandom
 	}
-	out["cases_random"] = int64(rnd) * 93 / 100
-	out["cases_report_only_probe"] = int64(rnd) * 7 / 100
+	out["cases_random"] = int64(rnd) * 98 / 100
+	out["cases_report_only_probe"] = int64(rnd) * 2 / 100
 	out["w3c_reference_agrees"] = 175 // every W3C expectation the reference has a model for
 	return out
 }
